@@ -142,7 +142,7 @@ Section Machine.
 
   (* Watchdog::handle_timeout *)
   Definition handle_timeout (s : st) : st :=
-    if incs s then set_timer reschedule_time s
+    if incs s then set_ltr (ltr s) (set_timer reschedule_time s)
     else
       let t := tadd (tsf s) (ltr s) in
       let s1 := set_tsf t s in
